@@ -36,7 +36,7 @@ pub fn parse_witness(w: &str) -> (XmlCfg, Vec<Feed>) {
         let i = w.find(k).unwrap_or_else(|| machinery(&format!("bad witness: {w}"))) + k.len();
         w[i..].split(' ').next().unwrap().to_string()
     };
-    let cfg = XmlCfg { exact_errors: get("exact=") == "true", discard_bom: get("bom=") == "true", ..Default::default() };
+    let cfg = XmlCfg { exact_errors: get("exact=") == "true", discard_bom: get("bom=") == "true", profile: w.contains(" profile=true"), gc: w.contains(" gc=true"), ..Default::default() };
     let i = w.find("chunks=[").unwrap();
     let fake = format!("start=Data last=None cdata=false exact=false bom=true {}", &w[i..]);
     let (_, sched) = crate::c01::parse_witness(&fake);
@@ -87,7 +87,7 @@ pub fn control_witnesses() -> Vec<String> {
     v
 }
 
-fn tree_sig(o: &XTreeOut) -> String {
+pub fn tree_sig(o: &XTreeOut) -> String {
     o.sink.dom.borrow().render_doc()
 }
 
@@ -145,8 +145,8 @@ pub fn check_input(ctx: &Ctx, st: &Stats, input: &str, max_cuts: usize, full: us
     }
     // chunkings x options
     for s in chunkings(input, max_cuts, full) {
-        for (ee, bom) in [(false, true), (true, true), (false, false)] {
-            let cfg = XmlCfg { exact_errors: ee, discard_bom: bom, ..Default::default() };
+        for (ee, bom, profile) in [(false, true, false), (true, true, false), (false, false, false), (false, true, true)] {
+            let cfg = XmlCfg { exact_errors: ee, discard_bom: bom, profile, ..Default::default() };
             if !bom && input.starts_with('\u{feff}') {
                 continue; // handled by the BOM cases below
             }
@@ -221,7 +221,7 @@ pub fn corpus(tier: Tier) -> Vec<String> {
     for s in [
         "<a>&\rx</a>", "<a>&a\r\n</a>", "<a>&amp;\r\n&lt;\r</a>", "<a b='&\r\n'/>", "<a b=\"x&amp\r\">", "<a>\0</a>", "<a b='\0'/>", "<!--\0-->", "<?p \0?>",
         "<a\0b>", "<a \0='1'>", "<a>x\ry\r\nz</a>", "<?pi x\r\ny?>", "<!--x\r\ny-->", "<a b='x\ry\r\nz'/>", "<a b=x\r>", "<!DOCTYPE a\r\nPUBLIC 'x\ry'>",
-        "<![CDATA[x\r\ny\0]]>", "<a><![CDATA[x\ry]]></a>", "a\u{feff}b", "<a>\u{feff}</a>", "&#10;\r\n&#10;", "<a>&#\r\n;</a>", "<a>&#x\r;</a>", "<a>&#1\r\n</a>",
+        "<![CDATA[x\r\ny\0]]>", "<a><![CDATA[x\ry]]></a>", "a\u{feff}b", "<a>\u{feff}</a>", "<a b='&amp=1'/>", "<a b='&ampx'/>", "<a b=\"&lt=\r\n\"/>", "<a>&amp=1</a>", "<a b='&amp\r\n=1'/>", "<a b=&amp=1 c='d'/>", "&#10;\r\n&#10;", "<a>&#\r\n;</a>", "<a>&#x\r;</a>", "<a>&#1\r\n</a>",
     ] {
         v.push(s.to_string());
     }
